@@ -296,8 +296,19 @@ where
                     Expr::Ident(ident.clone())
                 }
             }
-            JSXElementName::JSXMemberExpr(expr) => Expr::JSXMember(expr.clone()),
-            JSXElementName::JSXNamespacedName(name) => Expr::JSXNamespacedName(name.clone()),
+            JSXElementName::JSXMemberExpr(expr) => jsx_member_to_expr(expr),
+            JSXElementName::JSXNamespacedName(name) => {
+                HANDLER.with(|handler| {
+                    handler.span_err(
+                        name.span,
+                        "Namespaced tag names are not supported by Vue JSX.",
+                    )
+                });
+                Expr::Lit(Lit::Str(quote_str!(format!(
+                    "{}:{}",
+                    name.ns.sym, name.name.sym
+                ))))
+            }
         }
     }
 
@@ -1601,6 +1612,19 @@ where
             Expr::Lit(Lit::Str(quote_str!(name.sym.clone()))),
         );
     }
+}
+
+/// `<a.b.c />` refers to the ordinary member expression `a.b.c`.
+fn jsx_member_to_expr(JSXMemberExpr { span, obj, prop }: &JSXMemberExpr) -> Expr {
+    Expr::Member(MemberExpr {
+        span: *span,
+        obj: Box::new(match obj {
+            JSXObject::Ident(ident) if &*ident.sym == "this" => Expr::This(ThisExpr { span: ident.span }),
+            JSXObject::Ident(ident) => Expr::Ident(ident.clone()),
+            JSXObject::JSXMemberExpr(member) => jsx_member_to_expr(member),
+        }),
+        prop: MemberProp::Ident(prop.clone()),
+    })
 }
 
 fn inject_define_component_option(call: &mut CallExpr, name: &'static str, value: Expr) {
